@@ -1,0 +1,137 @@
+//! Layout reports for the damage sweeps (property C16): where the writer put every block of a
+//! table file, which value-log entries the tables point at, and the format constants.
+//! Read-only; uses the crate's own footer / block-handle / block decoders.
+
+use std::fs::File as SysFile;
+use std::path::Path;
+use std::sync::Arc;
+
+use crate::sstable::block::BlockHandle;
+use crate::sstable::table::{read_table_block, Footer, BLOCK_CKSUM_LEN, BLOCK_COMPRESS_LEN};
+use crate::vfs::File;
+use crate::vlog::{ValueLocation, ValuePointer, VALUE_POINTER_SIZE};
+use crate::{InternalKey, Options};
+
+/// (offset, payload size) of a block as its handle says; the trailer (type byte + checksum)
+/// follows the payload.
+pub type Handle = (u64, u64);
+
+/// Everything `TableWriter::finish` laid out, found by walking footer -> top-level index ->
+/// partitions -> data blocks, and footer -> meta index -> filter.
+#[derive(Debug, Clone)]
+pub struct TableLayout {
+	pub file_len: u64,
+	/// data blocks in index order
+	pub data: Vec<Handle>,
+	pub filter: Option<Handle>,
+	/// index partitions in top-level order
+	pub partitions: Vec<Handle>,
+	pub top_index: Handle,
+	pub meta: Handle,
+	/// encoded length of the two handles in the footer
+	pub footer_handles_len: u64,
+	/// value pointers stored in the data blocks: (file id, offset, key size, value size, checksum)
+	pub value_pointers: Vec<(u32, u64, u32, u32, u32)>,
+}
+
+fn h(b: &BlockHandle) -> Handle {
+	(b.offset() as u64, b.size() as u64)
+}
+
+/// Walks an undamaged table file.
+pub fn table_layout(path: &Path) -> Result<TableLayout, String> {
+	let opts = Options::new();
+	let cmp = Arc::clone(&opts.internal_comparator);
+	let file = SysFile::open(path).map_err(|e| e.to_string())?;
+	let file: Arc<dyn File> = Arc::new(file);
+	let file_len = file.size().map_err(|e| e.to_string())?;
+	let fbuf = Footer::read_from(Arc::clone(&file), file_len as usize).map_err(|e| e.to_string())?;
+	let footer = Footer::decode(&fbuf).map_err(|e| e.to_string())?;
+	let (_, l1) = BlockHandle::decode(&fbuf[2..]).map_err(|e| e.to_string())?;
+	let (_, l2) = BlockHandle::decode(&fbuf[2 + l1..]).map_err(|e| e.to_string())?;
+
+	let top = read_table_block(Arc::clone(&cmp), Arc::clone(&file), &footer.index).map_err(|e| e.to_string())?;
+	let mut partitions = Vec::new();
+	let mut data = Vec::new();
+	let mut value_pointers = Vec::new();
+	let mut it = top.iter().map_err(|e| e.to_string())?;
+	it.seek_to_first().map_err(|e| e.to_string())?;
+	while it.is_valid() {
+		let (ph, _) = BlockHandle::decode(it.value_bytes()).map_err(|e| e.to_string())?;
+		partitions.push(h(&ph));
+		let pblock = read_table_block(Arc::clone(&cmp), Arc::clone(&file), &ph).map_err(|e| e.to_string())?;
+		let mut pit = pblock.iter().map_err(|e| e.to_string())?;
+		pit.seek_to_first().map_err(|e| e.to_string())?;
+		while pit.is_valid() {
+			let (dh, _) = BlockHandle::decode(pit.value_bytes()).map_err(|e| e.to_string())?;
+			data.push(h(&dh));
+			let dblock = read_table_block(Arc::clone(&cmp), Arc::clone(&file), &dh).map_err(|e| e.to_string())?;
+			let mut dit = dblock.iter().map_err(|e| e.to_string())?;
+			dit.seek_to_first().map_err(|e| e.to_string())?;
+			while dit.is_valid() {
+				let v = dit.value_bytes();
+				if let Ok(loc) = ValueLocation::decode(v) {
+					if loc.is_value_pointer() && loc.value.len() == VALUE_POINTER_SIZE {
+						if let Ok(p) = ValuePointer::decode(&loc.value) {
+							value_pointers.push((p.file_id, p.offset, p.key_size, p.value_size, p.checksum));
+						}
+					}
+				}
+				if !dit.advance().map_err(|e| e.to_string())? {
+					break;
+				}
+			}
+			if !pit.advance().map_err(|e| e.to_string())? {
+				break;
+			}
+		}
+		if !it.advance().map_err(|e| e.to_string())? {
+			break;
+		}
+	}
+
+	let metab =
+		read_table_block(Arc::clone(&cmp), Arc::clone(&file), &footer.meta_index).map_err(|e| e.to_string())?;
+	let mut filter = None;
+	let mut mit = metab.iter().map_err(|e| e.to_string())?;
+	mit.seek_to_first().map_err(|e| e.to_string())?;
+	while mit.is_valid() {
+		let k = InternalKey::decode(mit.key_bytes());
+		if k.user_key.starts_with(b"filter.") {
+			let (fh, _) = BlockHandle::decode(mit.value_bytes()).map_err(|e| e.to_string())?;
+			filter = Some(h(&fh));
+		}
+		if !mit.advance().map_err(|e| e.to_string())? {
+			break;
+		}
+	}
+
+	Ok(TableLayout {
+		file_len,
+		data,
+		filter,
+		partitions,
+		top_index: h(&footer.index),
+		meta: h(&footer.meta_index),
+		footer_handles_len: (l1 + l2) as u64,
+		value_pointers,
+	})
+}
+
+/// Format constants as compiled: (BLOCK_COMPRESS_LEN, BLOCK_CKSUM_LEN, full footer length
+/// (what `Footer::read_from` reads), the bytes `Footer::encode` writes for two zero handles
+/// (its tail is the magic), vlog file header size, value pointer size).
+pub fn params() -> (usize, usize, usize, Vec<u8>, usize, usize) {
+	let mem: Arc<dyn File> = Arc::new(vec![0u8; 4096]);
+	let full = Footer::read_from(mem, 4096).map(|b| b.len()).unwrap_or(0);
+	let mut buf = vec![0xAAu8; full];
+	Footer::new(BlockHandle::new(0, 0), BlockHandle::new(0, 0)).encode(&mut buf);
+	(
+		BLOCK_COMPRESS_LEN,
+		BLOCK_CKSUM_LEN,
+		full,
+		buf,
+		crate::vlog::VLogFileHeader::new(0, 0, 0).encode().len(),
+		VALUE_POINTER_SIZE,
+	)
+}
